@@ -72,16 +72,16 @@ fn is_succ(r: &Res) -> bool {
 fn fill<T: Payload>(sc: &mut Scn<T>) {
     if let Some(n) = sc.cap {
         for _ in 0..n {
-            sc.main.exec(Op::TrySend);
+            sc.mexec(Op::TrySend);
         }
     }
 }
 fn main_flavour<T: Payload>(sc: &mut Scn<T>, want_async_s: bool, want_async_r: bool) {
     if sc.main.senders[0].is_async() != want_async_s {
-        sc.main.exec(Op::ConvS);
+        sc.mexec(Op::ConvS);
     }
     if sc.main.receivers[0].is_async() != want_async_r {
-        sc.main.exec(Op::ConvR);
+        sc.mexec(Op::ConvR);
     }
 }
 
@@ -101,7 +101,7 @@ fn fam_handoff<T: Payload>(c: &Case, cx: &mut Ctx) -> Outcome {
             if !sc.wait_registered(w, 0, 1) {
                 return sc.finish(cx.lin_budget, &mut cx.obs, &mut cx.samples, &mut cx.lin_states);
             }
-            sc.main.exec(pk);
+            sc.mexec(pk);
             let r = sc.main_result();
             let tag = sc.main.log.last().unwrap().tag.unwrap();
             sc.expect(is_succ(&r), "C08", || format!("{:?} with a receiver waiting must succeed, got {:?}", pk, r));
@@ -123,12 +123,12 @@ fn fam_handoff<T: Payload>(c: &Case, cx: &mut Ctx) -> Outcome {
             if !sc.wait_registered(w, 0, 1) {
                 return sc.finish(cx.lin_budget, &mut cx.obs, &mut cx.samples, &mut cx.lin_states);
             }
-            sc.main.exec(pk);
+            sc.mexec(pk);
             let r = sc.main_result();
             sc.expect(matches!(r, Res::Val(_) | Res::Drained(_)), "C06", || format!("{:?} with a value available must obtain it, got {:?}", pk, r));
             // take whatever is left (refill case) without blocking
             for _ in 0..4 {
-                sc.main.exec(Op::TryRecv);
+                sc.mexec(Op::TryRecv);
             }
             sc.join(w);
             let wr = sc.worker_result(w, 0);
@@ -144,8 +144,8 @@ fn fam_handoff<T: Payload>(c: &Case, cx: &mut Ctx) -> Outcome {
         _ => {
             let sk = ps_kinds()[c.b as usize % 8];
             let rk = pr_kinds()[c.c as usize % 7];
-            sc.main.exec(sk);
-            sc.main.exec(rk);
+            sc.mexec(sk);
+            sc.mexec(rk);
             let r = sc.main_result();
             sc.expect(matches!(r, Res::Val(_) | Res::Drained(_)), "C01", || format!("buffered value not obtained: {:?}", r));
             cell(cx, format!("handoff/buffer/{}->{}/{}", opn(&sk), opn(&rk), T::NAME));
@@ -206,13 +206,13 @@ fn fam_timed<T: Payload>(c: &Case, cx: &mut Ctx) -> Outcome {
             // a later peer must find nothing to deliver into
             if recv_side {
                 if c.cap == Some(0) {
-                    sc.main.exec(Op::TrySend);
+                    sc.mexec(Op::TrySend);
                     let r = sc.main_result();
                     sc.expect(r == Res::False, "C13", || format!("try_send after a timed-out receive found a phantom receiver: {:?}", r));
                 }
             } else {
                 // drain the buffer; the timed-out value must not appear
-                sc.main.exec(Op::Drain);
+                sc.mexec(Op::Drain);
             }
         }
         1 => {
@@ -249,7 +249,7 @@ fn fam_timed<T: Payload>(c: &Case, cx: &mut Ctx) -> Outcome {
                 return sc.finish(cx.lin_budget, &mut cx.obs, &mut cx.samples, &mut cx.lin_states);
             }
             sc.pin_reg(w, 0);
-            sc.main.exec(Op::CloseS);
+            sc.mexec(Op::CloseS);
             sc.release(w, WAIT_TIMEOUT_EXPIRED);
             sc.join(w);
             let r = sc.worker_result(w, 0);
@@ -260,7 +260,7 @@ fn fam_timed<T: Payload>(c: &Case, cx: &mut Ctx) -> Outcome {
                 return sc.finish(cx.lin_budget, &mut cx.obs, &mut cx.samples, &mut cx.lin_states);
             }
             sc.pin_reg(w, 0);
-            sc.main.exec(if recv_side { Op::DropS } else { Op::DropR });
+            sc.mexec(if recv_side { Op::DropS } else { Op::DropR });
             sc.release(w, WAIT_TIMEOUT_EXPIRED);
             sc.join(w);
             let r = sc.worker_result(w, 0);
@@ -336,16 +336,16 @@ fn fam_progress<T: Payload>(c: &Case, cx: &mut Ctx) -> Outcome {
     let rname = ["peer-sync", "peer-async", "close", "last-opposite-handle-dropped"][release as usize];
     match release {
         0 => {
-            sc.main.exec(if recv_side { Op::TrySend } else { Op::TryRecv });
+            sc.mexec(if recv_side { Op::TrySend } else { Op::TryRecv });
         }
         1 => {
-            sc.main.exec(if recv_side { Op::ASend } else { Op::ARecv });
+            sc.mexec(if recv_side { Op::ASend } else { Op::ARecv });
         }
         2 => {
-            sc.main.exec(if c.d & 2 == 2 { Op::CloseR } else { Op::CloseS });
+            sc.mexec(if c.d & 2 == 2 { Op::CloseR } else { Op::CloseS });
         }
         _ => {
-            sc.main.exec(if recv_side { Op::DropS } else { Op::DropR });
+            sc.mexec(if recv_side { Op::DropS } else { Op::DropR });
         }
     }
     if phase == 2 {
@@ -364,7 +364,7 @@ fn fam_progress<T: Payload>(c: &Case, cx: &mut Ctx) -> Outcome {
     }
     if !recv_side {
         for _ in 0..3 {
-            sc.main.exec(Op::TryRecv);
+            sc.mexec(Op::TryRecv);
         }
     }
     cell(cx, format!("progress/{}/{}/{}", opn(&wk), rname, pname));
@@ -410,10 +410,10 @@ fn fam_futdrop<T: Payload>(c: &Case, cx: &mut Ctx) -> Outcome {
     let sname = ["never-polled", "pending", "claimed", "completed-unread", "completed"][stage as usize];
     let mut fut_registered = false;
     if stage == 0 {
-        sc.main.exec(if recv_kind { Op::ARecvDrop(0) } else { Op::ASendDrop(0) });
+        sc.mexec(if recv_kind { Op::ARecvDrop(0) } else { Op::ASendDrop(0) });
     } else {
         // the future borrows one handle for its whole life: give main a second one to keep working with
-        sc.main.exec(if recv_kind { Op::CloneR(c.d & 2 == 2) } else { Op::CloneS(c.d & 2 == 2) });
+        sc.mexec(if recv_kind { Op::CloneR(c.d & 2 == 2) } else { Op::CloneS(c.d & 2 == 2) });
         let p = if recv_kind { sc.main.rfut_start(0) } else { sc.main.sfut_start(0) };
         if p.is_pending() {
             sc.pin_main_reg();
@@ -434,7 +434,7 @@ fn fam_futdrop<T: Payload>(c: &Case, cx: &mut Ctx) -> Outcome {
     // serve the waiters registered before the future so that the future is at the head
     let serve_before = |sc: &mut Scn<T>| {
         for _ in 0..before {
-            sc.main.exec(peer_op);
+            sc.mexec(peer_op);
         }
     };
     if fut_registered {
@@ -454,18 +454,25 @@ fn fam_futdrop<T: Payload>(c: &Case, cx: &mut Ctx) -> Outcome {
                     return sc.finish(cx.lin_budget, &mut cx.obs, &mut cx.samples, &mut cx.lin_states);
                 }
                 sc.pin_reg(p, 0);
-                // the owner drops while the peer owns the signal: the drop has to wait for the peer
+                // the owner drops while the peer owns the signal: the drop has to wait for the peer.
+                // Decided logically, not by time: the helper releases the frozen peer only once the dropping
+                // thread has been seen inside async_blocking_wait - or once the drop has already returned,
+                // which is the violation (the future's memory is gone while the peer is still going to use it).
                 let h0 = sc.hits0;
+                let dropped = Arc::new(AtomicBool::new(false));
+                let d2 = dropped.clone();
                 let rel = if refill_inside_lock {
                     // the peer is frozen inside the channel lock: the drop cannot even look at the wait list
                     release_when(prole, pt, Duration::from_millis(3), || false)
                 } else {
-                    release_when(prole, pt, Duration::from_millis(if cfg!(miri) { 50 } else { 2000 }), move || fp::hits_delta(&h0)[ABW_ENTER as usize] > abw0)
+                    release_when(prole, pt, Duration::from_secs(100_000_000), move || fp::hits_delta(&h0)[ABW_ENTER as usize] > abw0 || d2.load(Ordering::Acquire))
                 };
                 if recv_kind { sc.main.rfut_drop() } else { sc.main.sfut_drop() }
-                let met = rel.join().unwrap();
+                let waited = sc.hits()[ABW_ENTER as usize] > abw0;
+                dropped.store(true, Ordering::Release);
+                rel.join().unwrap();
                 if !refill_inside_lock {
-                    sc.expect(met, "C15", || "a future dropped while a peer had claimed it did not wait for that peer (no async_blocking_wait observed)".into());
+                    sc.expect(waited, "C15", || "a future was dropped while a peer had claimed it, and the drop returned without waiting for that peer (no async_blocking_wait): the peer is left with a pointer into freed memory".into());
                 }
                 sc.join(p);
                 let pr = sc.worker_result(p, 0);
@@ -492,7 +499,7 @@ fn fam_futdrop<T: Payload>(c: &Case, cx: &mut Ctx) -> Outcome {
     }
     // later operations must go to the remaining waiters, in their order, never into the dropped future
     for _ in 0..(before + after + 1) {
-        sc.main.exec(peer_op);
+        sc.mexec(peer_op);
     }
     for w in others.clone() {
         if sc.worker_finished(w) {
@@ -525,7 +532,7 @@ fn fam_wakerace<T: Payload>(c: &Case, cx: &mut Ctx) -> Outcome {
     if !recv_kind {
         fill(&mut sc);
     }
-    sc.main.exec(if recv_kind { Op::CloneR(c.d & 2 == 2) } else { Op::CloneS(c.d & 2 == 2) });
+    sc.mexec(if recv_kind { Op::CloneR(c.d & 2 == 2) } else { Op::CloneS(c.d & 2 == 2) });
     let p0 = if recv_kind { sc.main.rfut_start(0) } else { sc.main.sfut_start(0) };
     if p0.is_ready() {
         sc.inconclusive = Some("future completed at once".into());
@@ -619,7 +626,7 @@ fn fam_wakerace<T: Payload>(c: &Case, cx: &mut Ctx) -> Outcome {
     }
     if !recv_kind {
         for _ in 0..3 {
-            sc.main.exec(Op::TryRecv);
+            sc.mexec(Op::TryRecv);
         }
     }
     cell(cx, format!("wakerace/{}/{}/{}", if recv_kind { "recv" } else { "send" }, ["frozen-in-waker-refresh", "free-race", "spurious-polls"][variant as usize], T::NAME));
@@ -683,7 +690,7 @@ fn fam_frozen<T: Payload>(c: &Case, cx: &mut Ctx) -> Outcome {
             sc.pin_reg(p, 0);
             // every other thread is now suspended in the middle of the hand-off: all seven must return
             for op in nb {
-                sc.main.exec(op);
+                sc.mexec(op);
                 cell(cx, format!("frozen/outside-lock@{}/{}", POINT_NAMES[pt as usize], opn(&op)));
             }
             sc.release(p, pt);
@@ -703,7 +710,7 @@ fn fam_frozen<T: Payload>(c: &Case, cx: &mut Ctx) -> Outcome {
             }
             // the closer is frozen while HOLDING the channel lock: the realtime variants must give up at once
             for op in rt {
-                sc.main.exec(op);
+                sc.mexec(op);
                 let r = sc.main_result();
                 sc.expect(matches!(r, Res::False | Res::NoneV), "C14", || format!("{:?} while another thread is stalled inside the channel lock must report 'not done', got {:?}", op, r));
                 cell(cx, format!("frozen/inside-lock@TERM_ENTER/{}", opn(&op)));
@@ -731,7 +738,7 @@ fn fam_frozen<T: Payload>(c: &Case, cx: &mut Ctx) -> Outcome {
             }
             sc.pin_reg(p, 0);
             for op in rt {
-                sc.main.exec(op);
+                sc.mexec(op);
                 let r = sc.main_result();
                 sc.expect(matches!(r, Res::False | Res::NoneV), "C14", || format!("{:?} while another thread is stalled inside the channel lock must report 'not done', got {:?}", op, r));
                 cell(cx, format!("frozen/inside-lock@RECV_ENTER/{}", opn(&op)));
@@ -740,7 +747,7 @@ fn fam_frozen<T: Payload>(c: &Case, cx: &mut Ctx) -> Outcome {
             sc.join(p);
             sc.join(w);
             for _ in 0..3 {
-                sc.main.exec(Op::TryRecv);
+                sc.mexec(Op::TryRecv);
             }
             pname = "RECV_ENTER(in lock)";
         }
@@ -780,12 +787,12 @@ fn fam_drain<T: Payload>(c: &Case, cx: &mut Ctx) -> Outcome {
             }
             ws.push(w);
         }
-        sc.main.exec(Op::Drain);
+        sc.mexec(Op::Drain);
         let r = sc.main_result();
         sc.expect(r == Res::Drained(vec![]), "C19", || format!("drain_into with only receivers waiting must take nothing, got {:?}", r));
         sc.expect(sc.waiters() == k, "C19", || "drain_into disturbed the blocked receivers".into());
         for _ in 0..k {
-            sc.main.exec(Op::TrySend);
+            sc.mexec(Op::TrySend);
         }
         for w in ws {
             sc.join(w);
@@ -799,7 +806,7 @@ fn fam_drain<T: Payload>(c: &Case, cx: &mut Ctx) -> Outcome {
             (None, _) => (c.b % 4) as usize,
         };
         for _ in 0..nfill {
-            sc.main.exec(Op::TrySend);
+            sc.mexec(Op::TrySend);
         }
         let j = if full && sc.cap.is_some() { (c.b % 4) as usize } else { 0 };
         let kinds = ws_kinds();
@@ -811,7 +818,7 @@ fn fam_drain<T: Payload>(c: &Case, cx: &mut Ctx) -> Outcome {
             }
             ws.push(w);
         }
-        sc.main.exec(Op::Drain);
+        sc.mexec(Op::Drain);
         let r = sc.main_result();
         if let Res::Drained(v) = &r {
             let vl = v.len();
@@ -824,14 +831,14 @@ fn fam_drain<T: Payload>(c: &Case, cx: &mut Ctx) -> Outcome {
             let wr = sc.worker_result(w, 0);
             sc.expect(wr == Some(Res::Ok), "C19", || format!("a sender whose value drain_into took must be released with success, got {:?}", wr));
         }
-        sc.main.exec(Op::Drain);
+        sc.mexec(Op::Drain);
         cell(cx, format!("drain/buffered-{}+blocked-senders-{}/{}", nfill, j, T::NAME));
     }
     // on a closed channel: fails, takes nothing
     if c.d & 1 == 1 {
-        sc.main.exec(Op::TrySend);
-        sc.main.exec(Op::CloseR);
-        sc.main.exec(Op::Drain);
+        sc.mexec(Op::TrySend);
+        sc.mexec(Op::CloseR);
+        sc.mexec(Op::Drain);
         let r = sc.main_result();
         sc.expect(r == Res::Closed, "C19", || format!("drain_into on a closed channel must fail, got {:?}", r));
     }
@@ -875,7 +882,7 @@ fn fam_fifo<T: Payload>(c: &Case, cx: &mut Ctx) -> Outcome {
                     cancelled_w = Some(w);
                 }
                 _ => {
-                    sc.main.exec(Op::CloneS(true));
+                    sc.mexec(Op::CloneS(true));
                     if sc.main.sfut_start(0).is_pending() {
                         sc.pin_main_reg();
                         reg += 1;
@@ -913,7 +920,7 @@ fn fam_fifo<T: Payload>(c: &Case, cx: &mut Ctx) -> Outcome {
         if got >= total {
             break;
         }
-        sc.main.exec(rk);
+        sc.mexec(rk);
         match sc.main_result() {
             Res::Val(_) => got += 1,
             Res::Drained(v) => got += v.len(),
@@ -963,24 +970,24 @@ fn fam_closedisc<T: Payload>(c: &Case, cx: &mut Ctx) -> Outcome {
     let dropop = if recv_side { Op::DropS } else { Op::DropR };
     match action {
         0 => {
-            sc.main.exec(if c.d & 1 == 1 { Op::CloseR } else { Op::CloseS });
+            sc.mexec(if c.d & 1 == 1 { Op::CloseR } else { Op::CloseS });
             sc.expect(sc.main_result() == Res::Ok, "C10", || "first close() must succeed".into());
-            sc.main.exec(if c.d & 2 == 2 { Op::CloseR } else { Op::CloseS });
+            sc.mexec(if c.d & 2 == 2 { Op::CloseR } else { Op::CloseS });
             sc.expect(sc.main_result() == Res::Closed, "C10", || "second close() must fail".into());
             for op in [Op::TrySend, Op::TryRecv, Op::Len, Op::SenderCount, Op::ReceiverCount, Op::IsClosed, Op::Drain, Op::SendTimeout(100), Op::RecvTimeout(100), Op::ASend, Op::ARecv] {
-                sc.main.exec(op);
+                sc.mexec(op);
             }
         }
         1 => {
-            sc.main.exec(dropop);
+            sc.mexec(dropop);
         }
         _ => {
-            sc.main.exec(if recv_side { Op::CloneS(true) } else { Op::CloneR(true) });
-            sc.main.exec(dropop);
+            sc.mexec(if recv_side { Op::CloneS(true) } else { Op::CloneR(true) });
+            sc.mexec(dropop);
             std::thread::sleep(Duration::from_millis(2));
             let all_blocked = ws.iter().all(|w| !sc.worker_finished(*w));
             sc.expect(all_blocked && sc.waiters() == k, "C11", || "waiters were released although a handle of the opposite side still exists".into());
-            sc.main.exec(dropop);
+            sc.mexec(dropop);
         }
     }
     for w in ws {
@@ -1086,6 +1093,30 @@ fn main() -> std::process::ExitCode {
             }
         });
     }
+    let case_no = Arc::new(std::sync::atomic::AtomicU64::new(0));
+    let mut wd = None;
+    if cfg!(miri) {
+        // with -Zmiri-disable-isolation the clock is the host's: a case that sits for minutes is reported as
+        // inconclusive (exit 3) together with the last script steps, instead of silently eating the time budget
+        let cn = case_no.clone();
+        wd = Some(std::thread::spawn(move || {
+            let mut last = (0u64, std::time::Instant::now());
+            loop {
+                std::thread::sleep(Duration::from_millis(200));
+                let c = cn.load(Ordering::Relaxed);
+                if c == u64::MAX {
+                    return;
+                }
+                if c != last.0 {
+                    last = (c, std::time::Instant::now());
+                } else if last.1.elapsed() > Duration::from_secs(240) {
+                    let steps = kverif::scn::LAST.lock().map(|l| l.clone()).unwrap_or_default();
+                    println!("{}", J::O(vec![("engine".into(), J::s("scen")), ("miri_case_timeout".into(), J::B(true)), ("last_steps".into(), J::A(steps.into_iter().map(J::s).collect()))]).to_string());
+                    std::process::exit(3);
+                }
+            }
+        }));
+    }
     let t0 = std::time::Instant::now();
     let hits0 = fp::hits();
     let mut cx = Ctx { obs: Obs::default(), samples: vec![], lin_states: 0, cells: BTreeMap::new(), lin_budget: kverif::arg_u64(&a, "lin-budget", 400_000) };
@@ -1134,6 +1165,7 @@ fn main() -> std::process::ExitCode {
                 run_case::<T>(c, cx)
             }
             let nsamp = cx.samples.len();
+            case_no.fetch_add(1, Ordering::Relaxed);
             let o = with_class!(c.class, go(&c, &mut cx));
             ncases += 1;
             *per_family.entry(fam.to_string()).or_insert(0) += 1;
@@ -1169,6 +1201,10 @@ fn main() -> std::process::ExitCode {
                 }
             }
         }
+    }
+    case_no.store(u64::MAX, Ordering::Relaxed);
+    if let Some(h) = wd {
+        let _ = h.join();
     }
     let hits = fp::hits_delta(&hits0);
     let mut out = J::obj();
